@@ -180,8 +180,11 @@ template<typename Scalar, size_t DIM>
 VectorOfEigenVector<typename RayCasting<Scalar, DIM>::CellIndexes>
 RayCasting<Scalar, DIM>::cast(const PointType & originPoint, const PointType & endPoint)
 {
+  // endPoint may refer to a point stored in this object (e.g. getOriginPoint()),
+  // which setOriginPoint overwrites
+  const PointType endPointValue = endPoint;
   setOriginPoint(originPoint);
-  return cast(endPoint);
+  return cast(endPointValue);
 }
 
 // TODO(Jean) factoriser en utilisant const expr if
